@@ -55,7 +55,14 @@ func H_C15_Report(v *sym.V) {
 	b := g.BuildUpTo("e", v.Param("D", 2), leaves, gen.AllWrappers)
 	e := b.Err
 	tag := ""
-	switch v.Choice("stage", 5) {
+	switch v.Choice("stage", 6) {
+	case 5:
+		// received from a peer whose types were migrated from another directory:
+		// the marks differ from the type names only in the leading path
+		enc := wire.Copy(wire.Encode(e))
+		wire.Reprefix(enc, -1, "moved/")
+		e = wire.Decode(enc)
+		tag = "/moved"
 	case 4:
 		// two stack annotations with identical frames
 		e = errors.WithStack(errors.WithStack(e))
